@@ -41,7 +41,9 @@ def gen(rng, tier):
         cfg.update({"transcript_key": "tid", "gene_key": "gid", "subfeature": "part"})
     long_run = rng.random() < 0.04  # a minority of long inputs (batch-size / buffer effects)
     if long_run:
-        cfg.update({"max_genes": rng.choice([150, 300, 450]), "n_exons": [1, 1, 2, 3]})
+        cfg.update({"max_genes": rng.choice([150, 300, 450, 700]), "n_exons": [1, 1, 2, 3]})
+        if cfg["max_genes"] == 700:
+            cfg["max_tx"] = 3  # > 1000 transcripts owning exons
     feats = []
     while not feats:
         feats = G.gtf_annotation(rng, cfg)
@@ -89,7 +91,9 @@ def gen(rng, tier):
             f2 = G.gtf_annotation(rng, {"max_genes": 3, "max_tx": 2})
         pair = {"feats": f2, "sched_seed": rng.getrandbits(32), "policy": rng.choice(["uniform", "bursty", "rr", "pileup"])}
     return {"feats": feats, "custom": custom, "kw": kw, "form": rng.choice(["path", "string", "list", "gen"]),
-            "after": rng.choice(["none", "reopen", "restart", "restart"]), "fault": fault, "updates": updates, "pair": pair}
+            "after": rng.choice(["none", "reopen", "restart", "restart"]), "fault": fault, "updates": updates, "pair": pair,
+            # no two lines of these inputs share a key, so every strategy must give the same database
+            "strategy": rng.choice(["error", "error", "create_unique", "replace", "warning", "merge"])}
 
 
 def check(model, case, d, V, where):
@@ -210,7 +214,7 @@ def run(case):
 
         node = w.node()
         spec = G.source_spec(None, case["feats"], form=case["form"], d=G.DEFAULT_GTF)
-        req = {"op": "create", "h": "h", "db": "a.db", "data": spec, "kw": dict(kw, merge_strategy="error")}
+        req = {"op": "create", "h": "h", "db": "a.db", "data": spec, "kw": dict(kw, merge_strategy=case.get("strategy", "error"))}
         if case["custom"]:
             req["id_spec"] = id_spec
         if fault:
@@ -244,7 +248,7 @@ def run(case):
                 for ui, upd in enumerate(case.get("updates") or []):
                     if V:
                         break
-                    ukw = dict(kw, merge_strategy="error", make_backup=False)
+                    ukw = dict(kw, merge_strategy=case.get("strategy", "error"), make_backup=False)
                     pre_ids = set(model.order)
                     if upd.get("fail_first_at") is not None:
                         ukw["checklines"] = upd.get("checklines", 0)
